@@ -160,43 +160,8 @@ def _f_any_indef(failure):
     return _passes_definite(case)
 
 
-def _f_opt_empty_record(failure):
-    """Absent OPTIONAL component of an all-optional record type is written as present-and-empty."""
-    if failure['kind'] != 'value' or not failure.get('obs'):
-        return False
-    case = fz.case_of(failure)
-    if not fz.absent_optional_empty_record(case['T'], case['v']):
-        return False
-    obs = ir.from_jsonable(failure['obs'])
-    if 'got' not in obs:
-        return False
-    T = case['T']
-    return ir.same(T, fz.strip_empty_optional_records(T, obs['got']), fz.strip_empty_optional_records(T, case['v']))
 
 
-def _f_real10(failure):
-    """Decimal REAL is decoded through float(): the value comes back rounded."""
-    if failure['kind'] != 'value' or not failure.get('obs'):
-        return False
-    case = fz.case_of(failure)
-    if not fz.real10_present(case['T'], case['v']):
-        return False
-    obs = ir.from_jsonable(failure['obs'])
-    if 'got' not in obs:
-        return False
-    T = case['T']
-
-    def flt(t, x):
-        if t['k'] == 'REAL' and isinstance(x, tuple) and x[1] == 10:
-            return ('float', '%.10e' % float('%de%d' % (x[0], x[2])))
-        return x
-    try:
-        a = fz.map_values(T, obs['got'], flt)
-        b = fz.map_values(T, case['v'], flt)
-    except (OverflowError, ValueError):
-        return False
-    return ir.jdump(ir.canon(T, a)) == ir.jdump(ir.canon(T, b))
 
 
-FINDINGS = {'F01-stray-eoo': _f_eoo,
-            'F03-optional-empty-record': _f_opt_empty_record, 'F04-real10-float': _f_real10}
+FINDINGS = {'F01-stray-eoo': _f_eoo}
